@@ -185,7 +185,11 @@ class CoopQueue:
         if CTL is not None:
             CTL.yield_point(("qget",))
         if not self.items:
-            raise _q.Empty
+            if not block:
+                raise _q.Empty
+            # a blocking get on an empty queue waits (for ever, if nobody puts)
+            while not self.items:
+                CTL.yield_point(("qget-wait",), blocked=lambda: bool(self.items))
         return self.items.pop(0)
 
     def task_done(self):
@@ -196,9 +200,13 @@ class CoopQueue:
             CTL.yield_point(("qjoin",), blocked=lambda: self.unfinished == 0)
 
     def empty(self):
+        if CTL is not None:
+            CTL.yield_point(("qempty",))
         return not self.items
 
     def qsize(self):
+        if CTL is not None:
+            CTL.yield_point(("qsize",))
         return len(self.items)
 
 
